@@ -115,7 +115,8 @@ def seed_target(tdir, h):
 def build(repo):
     """returns (binary path, seconds spent in cargo); exits 2 on failure"""
     repo = os.path.realpath(repo)
-    for need in ('Cargo.lock', 'runtime/Cargo.toml', 'actors/paych/Cargo.toml', 'actors/multisig/Cargo.toml'):
+    for need in ('Cargo.lock', 'runtime/Cargo.toml', 'actors/paych/Cargo.toml', 'actors/multisig/Cargo.toml',
+                 'actors/market/Cargo.toml'):
         if not os.path.exists(os.path.join(repo, need)):
             die('VERIF_REPO=%s does not look like a builtin-actors checkout (%s missing)' % (repo, need))
     h = hashlib.sha1(repo.encode()).hexdigest()[:12]
@@ -361,9 +362,13 @@ def main():
 
     diffs = []
     compare(norm(pred), norm(obs), '', diffs)
-    out('  observed: result=%s%s sends=%d commits=%s deleted=%s%s' % (
-        obs.get('result'), (' (%s)' % obs['error'][:160]) if obs.get('error') else '', len(obs.get('sends', [])),
-        obs.get('commits'), obs.get('deleted'), ' SCRIPT-EXHAUSTED' if obs.get('script_exhausted') else ''))
+    line = '  observed: result=%s%s' % (obs.get('result'), (' (%s)' % obs['error'][:160]) if obs.get('error') else '')
+    if 'sends' in obs:          # message-level adapters; function-level ones (market_state) have no runtime
+        line += ' sends=%d commits=%s deleted=%s%s' % (len(obs['sends']), obs.get('commits'), obs.get('deleted'),
+                                                       ' SCRIPT-EXHAUSTED' if obs.get('script_exhausted') else '')
+    elif isinstance(obs.get('ret'), dict):
+        line += ' ret=%s' % clip(json.dumps(show(norm(obs['ret']))))
+    out(line)
     if obs.get('script_exhausted'):
         out('  warning: the actor sent more messages than the scenario scripts; extra sends failed with exit code 99')
     if obs.get('state_error'):
